@@ -73,9 +73,12 @@ class Skein(object):
         # leaf level (0):
         Mi = []
         Ts = Tweak(TreeLevel=1,Type='msg')
-        for i in range(0,len(M),Nl):
+        if bitlen is not None: M = M[:(bitlen+7)//8]
+        for i in range(0,max(len(M),1),Nl):
             m = M[i:i+Nl]
-            Mi.append(UBI(Threefish,self.G,Ts)(m))
+            # only the last leaf can hold a partial byte:
+            bl = None if bitlen is None else min(bitlen-8*i,8*len(m))
+            Mi.append(UBI(Threefish,self.G,Ts)(m,bl))
             # spec for treehash is different from update
             # where Position evolves prior to UBI call...
             Ts.Position += Nl
